@@ -185,6 +185,9 @@ def reencode_checks(R, case, datagram):
 def run_case(R, level, values, forms, rid=None, err_index=0, label="gen", max_size=65507):
     v1 = level == "v1"
     oids = [(1, 3, 6, 1, 4, 1, 4242, 1, i) for i in range(len(values))]
+    if len(values) > 1 and hash(repr(values[0])) % 2:
+        # not in ascending OID order: positions must follow the REQUEST order
+        oids = oids[::-1]
     db = dict(zip(oids, values))
     kw = {"resp_forms": forms, "v3_resp_forms": forms, "max_size": max_size}
     saved = env.CLOCK.now
